@@ -350,3 +350,25 @@ def sany(module_path: str) -> None:
     p = subprocess.run(cmd, capture_output=True, text=True, cwd=SPEC_DIR)
     if p.returncode != 0 or "error" in p.stdout.lower().replace("errors: 0", ""):
         raise TLCError(f"SANY failed for {module_path}:\n{p.stdout[-2000:]}")
+
+
+def run_apalache(module_path: str, inv: str, tag: str, length: int = 0, timeout: int = 900):
+    """apalache-mc check --length=<n> --inv=<inv>.  Returns ("ok" | "violated", wall seconds)."""
+    wd = WORK / "apalache" / tag
+    shutil.rmtree(wd, ignore_errors=True)
+    wd.mkdir(parents=True, exist_ok=True)
+    src = Path(module_path)
+    shutil.copy(src, wd / src.name)
+    t0 = time.time()
+    try:
+        p = subprocess.run(["apalache-mc", "check", f"--length={length}", f"--inv={inv}", f"--out-dir={wd / 'out'}", src.name],
+                           cwd=wd, capture_output=True, text=True, timeout=timeout)
+    except subprocess.TimeoutExpired:
+        raise TLCError(f"apalache timed out on {src.name}")
+    (wd / "apalache.out").write_text(p.stdout + p.stderr)
+    wall = time.time() - t0
+    if "The outcome is: NoError" in p.stdout:
+        return "ok", wall
+    if "The outcome is: Error" in p.stdout and "violated" in p.stdout:
+        return "violated", wall
+    raise TLCError(f"apalache failed on {src.name} (see {wd / 'apalache.out'})")
